@@ -956,5 +956,24 @@ func (c *Ctx) ruleG6() {
 			c.bad("G6", cons, call.Pos(), "the condition variable is signalled without holding its lock while the waiter's loop condition (ctx.Err()) changes asynchronously: if the waiter has just evaluated the condition and not yet called Wait, the wake-up is lost, the goroutine never exits and the subscriber's channel is never closed")
 		})
 	}
-	c.floor("G6", "condition-variable signals", n, 2)
+	// the floor only stands while something waits on a condition variable: a repo that no
+	// longer uses sync.Cond at all has nothing for this rule to decide (E6 covers the
+	// channel form of the same hand-off)
+	nWait := 0
+	for _, f := range c.RepoFns {
+		if c.isTestFile(f.Pos()) || c.isControlFn(f) {
+			continue
+		}
+		eachCall(f, func(call ssa.CallInstruction) {
+			if calleeFull(call) == "(*sync.Cond).Wait" {
+				nWait++
+			}
+		})
+	}
+	c.Counts["G6:condition-variable waits"] = nWait
+	if nWait > 0 {
+		c.floor("G6", "condition-variable signals", n, 2)
+	} else {
+		c.Counts["G6:condition-variable signals"] = n
+	}
 }
